@@ -256,15 +256,15 @@ def fam(family, **kw):
 
 def plan_for(prop, tier, seed):
     T = tier == "thorough"
-    run_fams = [fam("runs_exh", shards=6, sample=1 if T else 24), fam("runs_rand", shards=4)]
-    stream_fams = [fam("stream_exh", shards=4, sample=1 if T else 4), fam("stream_rand", shards=3)]
-    builder_fams = [fam("builder_exh", shards=6, sample=1 if T else 6), fam("builder_rand", shards=3)]
+    run_fams = [fam("runs_exh", shards=12 if T else 6, sample=8 if T else 24), fam("runs_rand", shards=4)]
+    stream_fams = [fam("stream_exh", shards=8 if T else 4, sample=4), fam("stream_rand", shards=3)]
+    builder_fams = [fam("builder_exh", shards=10 if T else 6, sample=1 if T else 6), fam("builder_rand", shards=3)]
     P = dict(design=[], scenarios=[], families=[], report={prop}, nontrivial_keys=[], rule="", exhaustive=T)
     if prop == "C01":
         P["design"] = run_sweep(tier, lambda k: k["api"] in ("for_each", "try_for_each")) + stream_sweep(tier)[:3] + builder_sweep(tier)[:1]
         P["scenarios"] = scenario_jobs(tier, lambda k: k["api"] in ("for_each", "try_for_each"))
-        P["families"] = [fam("runs_exh", shards=6, sample=1 if T else 24, focus="conflict"), fam("runs_rand", shards=4, focus="conflict"),
-                         fam("stream_exh", shards=3, sample=1 if T else 6), fam("stream_rand", shards=2),
+        P["families"] = [fam("runs_exh", shards=12 if T else 6, sample=8 if T else 24, focus="conflict"), fam("runs_rand", shards=4, focus="conflict"),
+                         fam("stream_exh", shards=6 if T else 3, sample=4 if T else 6), fam("stream_rand", shards=2),
                          fam("builder_exh", shards=3, sample=2 if T else 24)]
         P["nontrivial_keys"] = ["handout_concurrent"]
         P["rule"] = ("every hand-out event (start / stream item) of every recorded trace is checked against all functions in flight; "
@@ -289,27 +289,27 @@ def plan_for(prop, tier, seed):
         P["rule"] = "non-trivial = distinct traces with an idle point (Pending, not woken) or a return; every poll, return, cancel and panic event is checked"
     elif prop == "C05":
         P["design"] = stream_sweep(tier) + stream_live(tier)
-        P["families"] = [fam("stream_exh", shards=6, sample=1), fam("stream_rand", shards=4), fam("wide", shards=2, focus="stream")]
+        P["families"] = [fam("stream_exh", shards=12 if T else 6, sample=1), fam("stream_rand", shards=4), fam("wide", shards=2, focus="stream")]
         P["nontrivial_keys"] = ["stall_check_nontrivial", "dropref_while_pending"]
         P["rule"] = "non-trivial = distinct traces with a Pending poll while functions are unyielded, or an FnRef drop after a Pending poll"
     elif prop == "C06":
         P["design"] = run_sweep(tier, lambda k: k["api"] in ("for_each", "try_for_each")) + stream_sweep(tier)[:2] + builder_sweep(tier)[:1]
         P["scenarios"] = scenario_jobs(tier, lambda k: k["api"] in ("for_each", "try_for_each"))
-        P["families"] = [fam("runs_exh", shards=6, sample=1 if T else 12, focus="eager"), fam("runs_rand", shards=4, focus="eager"),
+        P["families"] = [fam("runs_exh", shards=12 if T else 6, sample=8 if T else 12, focus="eager"), fam("runs_rand", shards=4, focus="eager"),
                          fam("builder_exh", shards=3, sample=2 if T else 12)]
         P["nontrivial_keys"] = ["idle_eager_nontrivial", "build_data_edge"]
         P["rule"] = "non-trivial = distinct traces with an idle point of an unlimited, unsignalled, failure-free concurrent call with unstarted functions, or a build with data edges"
     elif prop == "C07":
         P["design"] = run_sweep(tier, lambda k: k["api"].startswith("try"))
         P["scenarios"] = scenario_jobs(tier, lambda k: k["api"].startswith("try"))
-        P["families"] = [fam("runs_exh", shards=6, sample=1 if T else 8, focus="try"), fam("runs_rand", shards=4, focus="try")]
+        P["families"] = [fam("runs_exh", shards=12 if T else 6, sample=8 if T else 8, focus="try"), fam("runs_rand", shards=4, focus="try")]
         P["nontrivial_keys"] = ["return_failed"]
         P["rule"] = "non-trivial = distinct traces in which at least one function failed"
     elif prop == "C08":
         P["design"] = run_sweep(tier, lambda k: k.get("strategy", "none") != "none") + stream_sweep(tier, interrupting_only=True)
         P["scenarios"] = scenario_jobs(tier, lambda k: k.get("strategy", "none") != "none")
-        P["families"] = [fam("runs_exh", shards=6, sample=1 if T else 12, focus="int"), fam("runs_rand", shards=4, focus="int"),
-                         fam("stream_exh", shards=3, sample=1 if T else 4, focus="int"), fam("stream_rand", shards=2, focus="int")]
+        P["families"] = [fam("runs_exh", shards=12 if T else 6, sample=8 if T else 12, focus="int"), fam("runs_rand", shards=4, focus="int"),
+                         fam("stream_exh", shards=6 if T else 3, sample=2 if T else 4, focus="int"), fam("stream_rand", shards=2, focus="int")]
         P["nontrivial_keys"] = ["return_interruptible", "handout_after_signal"]
         P["rule"] = "non-trivial = distinct traces of an interrupting strategy in which a signal was sent or pending"
     elif prop == "C09":
@@ -321,7 +321,7 @@ def plan_for(prop, tier, seed):
     elif prop == "C10":
         P["design"] = run_sweep(tier, lambda k: k.get("limit", 0) >= 1 or k["api"] in ("fold", "try_fold")) + run_live(tier)[:1]
         P["scenarios"] = scenario_jobs(tier, lambda k: k.get("limit", 0) >= 1)
-        P["families"] = [fam("runs_exh", shards=6, sample=1 if T else 10, focus="limit"), fam("runs_rand", shards=4, focus="limit")]
+        P["families"] = [fam("runs_exh", shards=12 if T else 6, sample=8 if T else 10, focus="limit"), fam("runs_rand", shards=4, focus="limit")]
         P["nontrivial_keys"] = ["handout_limited"]
         P["rule"] = "non-trivial = distinct traces with hand-outs under a limit >= 1 (folds: limit 1)"
     elif prop in ("C11", "C12", "C13"):
@@ -336,7 +336,7 @@ def plan_for(prop, tier, seed):
         P["rule"] = "non-trivial = sequential API calls recorded (12 per builder input, one failing position each)"
     elif prop == "C15":
         P["design"] = multi_sweep(tier, False)
-        P["families"] = [fam("multi_seq", shards=6, count=20000 if T else 1500), fam("multi_exh", shards=6, sample=1 if T else 40, focus="seq")]
+        P["families"] = [fam("multi_seq", shards=6, count=20000 if T else 1500), fam("multi_exh", shards=6, sample=3 if T else 40, focus="seq")]
         P["report"] = {"*"}
         P["nontrivial_keys"] = ["fresh_compare"]
         P["rule"] = "histories of 2-3 runs on one graph value; non-trivial = runs re-executed alone on a freshly built graph and compared event by event"
@@ -357,12 +357,13 @@ def plan_for(prop, tier, seed):
         P["rule"] = "non-trivial = builds of graphs with edges; the hook counter of rank-queue pops is compared with n*n+n"
     elif prop == "C20":
         P["design"] = multi_sweep(tier, True)
-        P["families"] = [fam("multi_overlap", shards=6, count=20000 if T else 1500), fam("multi_exh", shards=6, sample=1 if T else 160, focus="overlap")]
+        P["families"] = [fam("multi_overlap", shards=6, count=20000 if T else 1500), fam("multi_exh", shards=6, sample=3 if T else 160, focus="overlap")]
         P["report"] = {"*"}
         P["nontrivial_keys"] = ["fresh_compare"]
         P["rule"] = "two overlapping runs on one graph; non-trivial = runs re-executed alone on a fresh graph and compared event by event"
     else:
         raise SystemExit(f"unknown property {prop}")
+    P["exhaustive"] = bool(T and all(f.get("sample", 1) == 1 for f in P["families"] if f["family"].endswith("_exh")))
     # hook-level conformance (impl -> design model): a rotating selection of option sets per property
     off = int(prop[1:]) * 7 + seed
     nrun = 24 if T else 5
